@@ -664,15 +664,12 @@ impl<Left: Executor, Right: Executor> Executor for MergeJoin<Left, Right> {
 
     fn next(&mut self) -> RuntimeResult<Option<Row>> {
         if self.emitting_unmatched_right {
-            while self.unmatched_right_idx < self.right_matched.len() {
-                let idx = self.unmatched_right_idx;
-                self.unmatched_right_idx += 1;
-
-                if !self.right_matched[idx] && idx < self.right_buffer.len() {
-                    let row = nulls_with_right(&self.right_buffer[idx], self.left_cols());
-                    self.stats.rows_produced += 1;
-                    return Ok(Some(row));
-                }
+            // The left input is exhausted: every right row that is still waiting has no partner.
+            if let Some(right_row) = self.current_right.take() {
+                let row = nulls_with_right(&right_row, self.left_cols());
+                self.advance_right()?;
+                self.stats.rows_produced += 1;
+                return Ok(Some(row));
             }
             return Ok(None);
         }
@@ -795,6 +792,15 @@ impl<Left: Executor, Right: Executor> Executor for MergeJoin<Left, Right> {
                     self.left_matched = false;
                 }
                 Ordering::Greater => {
+                    // Both inputs are sorted: no later left row can match this right row either. The row used to be
+                    // dropped (the bookkeeping of matched right rows was never filled in), so RIGHT / FULL joins
+                    // lost their unmatched right rows.
+                    if matches!(self.join_type, JoinType::Right | JoinType::Full) {
+                        let row = nulls_with_right(right_row, self.left_cols());
+                        self.advance_right()?;
+                        self.stats.rows_produced += 1;
+                        return Ok(Some(row));
+                    }
                     self.advance_right()?;
                 }
                 Ordering::Equal => {
